@@ -617,6 +617,9 @@ func (e *Engine) reflect(st *State, x T, t types.Type) Val {
 		st.assume(Ge(ln, IntLit(0)), "slice length >= 0")
 		return &SliceV{Back: o, Off: IntLit(0), Len: ln, Elem: u.Elem()}
 	case *types.Interface:
+		for _, c := range e.implementers(t) {
+			e.dynConFor(c)
+		}
 		return &IfaceV{Sym: true, Dyn: x}
 	case *types.Map:
 		o := e.newObj(st, x)
@@ -775,8 +778,8 @@ func (e *Engine) implementers(t types.Type) []types.Type {
 	var res []types.Type
 	if ok && iface.NumMethods() > 0 {
 		for _, p := range e.prog.AllPackages() {
-			if p.Pkg == nil || !strings.Contains(p.Pkg.Path(), "MinterTeam/mhub2") {
-				continue
+			if p.Pkg == nil || !strings.Contains(p.Pkg.Path(), "MinterTeam/mhub2") || !strings.HasSuffix(p.Pkg.Path(), "/types") {
+				continue // only message types (the mocks of keeper/test_common.go are not candidates)
 			}
 			for _, m := range p.Members {
 				tn, ok := m.(*ssa.Type)
